@@ -93,6 +93,12 @@ FlagKeySets == << <<>>, <<"Root.Str">>, <<"Leaf.Str">>, <<"Root.Sub.Str">>, <<"R
 
 FlagCfg(r, c, s, u) == [BaseCfg EXCEPT !.required = FlagKeySets[r], !.computed = FlagKeySets[c], !.sensitive = FlagKeySets[s], !.usfu = u]
 
+\* messages of ANOTHER file of the same package (see CrossFileShapes below)
+XDep == [pkg |-> "lim", share |-> TRUE,
+         msgs |-> <<Msg("Extra", <<Commented(Fld("Raw", 1, "bytes"), Com2), Commented(Fld("Str", 2, "string"), Com3)>>, <<>>)>>]
+XRoot == Msg("Root", <<Commented(Fld("Str", 1, "string"), Com1), Commented(MsgF("Sub", 2, "Extra"), Com4), Rep(MsgF("Subs", 3, "Extra"))>>, <<>>)
+XFront == Msg("Other", <<Commented(Fld("Num", 1, "int32"), Com5), Commented(Fld("Flt", 2, "float"), Com6)>>, <<>>)
+
 CommentShapes == [i \in DOMAIN Comments |-> Shape("c10.comment." \o ToString(i), FlagDesc(Comments[i]), BaseCfg)]
 
 FlagShapesQuick == <<
@@ -125,7 +131,12 @@ FlagShapesFull ==
   LET combos == SetToSeq({<<r, c, s, u>> : r \in DOMAIN FlagKeySets, c \in DOMAIN FlagKeySets, s \in DOMAIN FlagKeySets, u \in BOOLEAN})
   IN [i \in DOMAIN combos |-> Shape("c10.full." \o ToString(i), FlagDesc(Com1), FlagCfg(combos[i][1], combos[i][2], combos[i][3], combos[i][4]))]
 
-GenFlagShapes(long) == CommentShapes \o FlagShapesQuick \o CustomFlagShapes \o (IF long THEN FlagShapesFull ELSE <<>>)
+\* descriptions and flags of a message declared in another file of the package, with an unrelated message in front
+CrossFileFlagShapes == <<
+  Shape("c10.xfile", [pkg |-> "tp", msgs |-> <<XFront, XRoot>>, deps |-> <<XDep>>],
+        [BaseCfg EXCEPT !.required = <<"Extra.Raw">>, !.sensitive = <<"Root.Subs.Str">>, !.computed = <<"Root.Sub.Str">>, !.usfu = TRUE]) >>
+
+GenFlagShapes(long) == CommentShapes \o FlagShapesQuick \o CustomFlagShapes \o CrossFileFlagShapes \o (IF long THEN FlagShapesFull ELSE <<>>)
 
 ---------------------------------------------------------------------------
 \* C12: only the selected types, independent of the rest of the request
@@ -137,7 +148,7 @@ SelThird == Msg("Third", <<Fld("Flag", 1, "bool"), MapOf(MsgF("Dict", 2, "Leaf")
 SelExtra == Msg("Extra", <<Fld("Raw", 1, "bytes"), MsgF("Sub", 2, "Leaf")>>, <<>>)
 SelMsgs == <<Leaf, SelRoot, SelOther, SelThird>>
 SelNames == <<"Leaf", "Root", "Other", "Third">>
-SelDep == [pkg |-> "depx", msgs |-> <<Msg("Poison", <<Fld("Str", 1, "string")>>, <<>>), Msg("Bad", <<Fld("Num", 1, "int64")>>, <<>>)>>]
+SelDep == [pkg |-> "depx", share |-> FALSE, msgs |-> <<Msg("Poison", <<Fld("Str", 1, "string")>>, <<>>), Msg("Bad", <<Fld("Num", 1, "int64")>>, <<>>)>>]
 
 \* "rev": the same messages declared in the opposite order (a type declared after the message that uses it)
 SelDesc(ext) == [pkg |-> "tp",
@@ -160,7 +171,17 @@ SelShapesOf(sort, exts) ==
                            !.gchecks = <<GCheck("fn", "C12", "C12.text_independent")>>]]
   IN FlattenSeq([i \in DOMAIN runs |-> perRun(i)])
 
+\* a selected type with a field whose message type is declared in ANOTHER file of the same package (comments, paths
+\* and names of such a message are looked up in the file that declares it); with and without an unrelated message in
+\* FRONT of the selected one (every index of the generated file shifts)
+CrossFileShapes ==
+  LET mk(id, msgs, sort) ==
+        [Shape("c12.x." \o id, [pkg |-> "tp", msgs |-> msgs, deps |-> <<XDep>>], [BaseCfg EXCEPT !.sort = sort]) EXCEPT
+           !.group = "c12.x", !.gchecks = <<GCheck("fn", "C12", "C12.text_independent")>>]
+  IN <<mk("plain", <<XRoot>>, FALSE), mk("front", <<XFront, XRoot>>, FALSE), mk("back.sorted", <<XRoot, XFront>>, TRUE)>>
+
 GenSelectShapes(long) ==
+  CrossFileShapes \o
   IF long THEN SelShapesOf(FALSE, {"none", "msg", "dep", "rev"}) \o SelShapesOf(TRUE, {"none", "msg", "dep", "rev"})
   ELSE SelShapesOf(FALSE, {"none", "dep", "rev"}) \o SelShapesOf(TRUE, {"msg", "rev"})
 
@@ -310,8 +331,11 @@ SortRoot == Msg("Root", <<Fld("Str", 1, "string"), InOneof(Fld("BranchC", 2, "in
                           Fld("Alpha", 4, "int32"), InOneof(Fld("BranchA", 5, "string"), "Grp"), InOneof(MsgF("BranchB", 6, "Leaf"), "Grp"),
                           NonNull(Embed(MsgF("Inner", 7, "Inner"))), Rep(Fld("Items", 8, "string"))>>, <<"Grp2", "Grp">>)
 SortInner == Msg("Inner", <<Fld("Zed", 1, "bool"), Fld("Flag", 2, "bool")>>, <<>>)
-SortOther == Msg("Other", <<Fld("Num", 1, "int32"), Fld("Flt", 2, "float")>>, <<>>)
-SortMsgs == <<Leaf, SortInner, SortRoot, SortOther>>
+\* a message with two oneof groups declared against the alphabet, reached TWICE from a selected type
+SortPair == Msg("Pair", <<InOneof(Fld("BranchC", 1, "string"), "Zed"), InOneof(Fld("BranchD", 2, "int32"), "Zed"),
+                          InOneof(Fld("BranchA", 3, "string"), "Alpha")>>, <<"Zed", "Alpha">>)
+SortOther == Msg("Other", <<Fld("Num", 1, "int32"), Fld("Flt", 2, "float"), MsgF("Sub", 3, "Pair"), MsgF("Sub2", 4, "Pair")>>, <<>>)
+SortMsgs == <<Leaf, SortInner, SortPair, SortRoot, SortOther>>
 SortCfg(sort) == [BaseCfg EXCEPT !.types = <<"Root", "Other", "Leaf">>, !.sort = sort]
 
 \* rotations + a reversal + swaps of the root's fields (thorough: more), all orders of the messages
@@ -323,15 +347,19 @@ FieldOrders(long) ==
       swap(a, b) == [i \in 1..n |-> IF i = a THEN fs[b] ELSE IF i = b THEN fs[a] ELSE fs[i]]
   IN <<rev, rot(1), rot(3), swap(2, 5), swap(1, 8)>> \o (IF long THEN <<rot(2), rot(4), rot(5), rot(6), rot(7), swap(2, 3), swap(5, 6), swap(3, 6), swap(4, 7)>> ELSE <<>>)
 
-MsgOrders == SetToSeq(PermSeqs(<<1, 2, 3, 4>>) \ {<<1, 2, 3, 4>>})
-WithRoot(fs) == <<Leaf, SortInner, Reordered(SortRoot, fs), SortOther>>
+\* message orders: 5 messages; all 119 non-identical orders in the thorough tier, a seeded handful otherwise
+MsgOrders == SetToSeq(PermSeqs(<<1, 2, 3, 4, 5>>) \ {<<1, 2, 3, 4, 5>>})
+WithRoot(fs) == <<Leaf, SortInner, SortPair, Reordered(SortRoot, fs), SortOther>>
+\* the oneof groups of Pair declared the other way round (protoc numbers them by first appearance)
+WithPairSwapped == <<Leaf, SortInner, Reordered(SortPair, <<SortPair.fields[3], SortPair.fields[1], SortPair.fields[2]>>), SortRoot, SortOther>>
 Permuted(long) ==
   [i \in DOMAIN FieldOrders(long) |-> WithRoot(FieldOrders(long)[i])]
+  \o <<WithPairSwapped>>
   \* message orders: the reversal and a rotation always (a type declared after / before the messages that use
-  \* it), all 23 in the thorough tier
-  \o [i \in 1..2 |-> [j \in 1..4 |-> SortMsgs[<<<<4, 3, 2, 1>>, <<3, 4, 1, 2>>>>[i][j]]]]
-  \o [i \in 1..(IF long THEN Len(MsgOrders) ELSE 3) |-> [j \in 1..4 |-> SortMsgs[MsgOrders[i][j]]]]
-  \o <<[j \in 1..4 |-> WithRoot(FieldOrders(long)[1])[MsgOrders[7][j]]]>>
+  \* it), all of them in the thorough tier
+  \o [i \in 1..2 |-> [j \in 1..5 |-> SortMsgs[<<<<5, 4, 3, 2, 1>>, <<3, 4, 5, 1, 2>>>>[i][j]]]]
+  \o [i \in 1..(IF long THEN Len(MsgOrders) ELSE 3) |-> [j \in 1..5 |-> SortMsgs[MsgOrders[i][j]]]]
+  \o <<[j \in 1..5 |-> WithRoot(FieldOrders(long)[1])[MsgOrders[7][j]]]>>
 
 SortAlts(long) == [i \in DOMAIN Permuted(long) |-> Alt("perm." \o ToString(i), "C15.sorted_bytes", <<>>, 0, Permuted(long)[i])]
 
@@ -471,5 +499,8 @@ CustomShapes == <<
                      Msg("Root", <<MsgF("Sub", 1, "Leaf"), NonNull(MsgF("Sub2", 2, "Leaf")), Fld("Num", 3, "int32")>>, <<>>)>>,
        CustCfg(<<KV("Root.Sub.Cust", "CustN"), KV("Root.Sub2.Cust", "CustM")>>, <<KV("CustN", "SufN")>>)),
   With("u.two", <<Msg("Root", <<NonNull(Custom(Fld("Cust", 1, "string"), "CustT")), Fld("Extra", 2, "bytes")>>, <<>>)>>,
-       CustCfg(<<KV("Root.Extra", "CustX")>>, <<KV("CustT", "SufT")>>)) >>
+       CustCfg(<<KV("Root.Extra", "CustX")>>, <<KV("CustT", "SufT")>>)),
+  \* two custom types which share their last name component: the suffixes entry of the bare one is not the other's
+  With("u.cfg.samename", <<Msg("Root", <<Fld("Cust", 1, "string"), Fld("Extra", 2, "string"), Fld("Str", 3, "string")>>, <<>>)>>,
+       CustCfg(<<KV("Root.Cust", "Traits"), KV("Root.Extra", "ext/wrappers.Traits"), KV("Root.Str", "wrappers.Traits")>>, <<KV("Traits", "LocalTraits")>>)) >>
 =============================================================================
